@@ -44,8 +44,11 @@ CTYPES = {
     'form-x': FORM + 'x',
     'case-variant': 'Application/X-WWW-Form-Urlencoded',
     'latin1': FORM + '; charset=latin1',
+    # parameter names of a media type are case-insensitive (RFC 9110 8.3.1; the crate lower-cases them)
+    'Charset-unknown': FORM + '; Charset=x-nope',
+    'CHARSET-utf8': FORM + ';CHARSET=utf-8',
 }
-FOLDING = {'exact', 'utf8', 'UTF8', 'utf8-alias', 'param', 'param-then-charset'}
+FOLDING = {'exact', 'utf8', 'UTF8', 'utf8-alias', 'param', 'param-then-charset', 'CHARSET-utf8'}
 DONTCARE = {'case-variant', 'latin1'}
 
 
@@ -143,7 +146,7 @@ def run_shape(prog, shape, tier, seed, res):
             else:
                 res.witnesses.add('err:MalformedQueryString')
             return
-        if fold and ct == 'unknown-charset':
+        if fold and ct in ('unknown-charset', 'Charset-unknown'):
             if r.variant != 'Err' or r.fields[0].variant != 'InvalidBodyEncoding':
                 fail('unknown charset label not refused as InvalidBodyEncoding')
             else:
